@@ -10,7 +10,7 @@
 import ast
 
 from ..loader import AnalysisError, dotted
-from ..astutil import walk_own, calls_in, norm, Defs, leaves, stmt_of, kwarg, need, returns_of, expand, const_value, own_stmts
+from ..astutil import P, walk_own, calls_in, norm, Defs, leaves, stmt_of, kwarg, need, returns_of, expand, const_value, own_stmts
 from .. import cfg as cfgmod
 from ..variants import Witness
 
@@ -292,7 +292,7 @@ def rule_r2(p, res):
     r.check(got_ok, ci, svd[0], "rank truncation must keep the first k columns of U, the first k singular values and the first k rows of Vt (found %s): a non-conformant slice is swallowed "
             "by the fallback `except` and truncation is silently ignored" % sl, {"truncation_slices": sl})
     rets = [norm(x.value) for x in returns_of(ci.node)]
-    r.check("%s.dot(np.diag(1 / %s)).dot(%s)" % (U, S, Vt) in rets, ci, ci.node, "truncated inverse = U_k diag(1/S_k) Vt_k")
+    r.check(P("%s.dot(np.diag(1 / %s)).dot(%s)" % (U, S, Vt)) in rets, ci, ci.node, "truncated inverse = U_k diag(1/S_k) Vt_k")
 
 
 def _epilogue(f):
@@ -361,7 +361,7 @@ def rule_r4(p, res):
     ok = len(sub) == 1 and [(norm(t), pol) for t, pol in g.guards(sub[0])] == [(f.params[2], True)] and isinstance(sub[0].value, ast.BinOp) and isinstance(sub[0].value.op, ast.Sub) and norm(sub[0].value.left) == sm
     r.check(ok, f, f.node, "the model mean must be subtracted from the samples exactly when subtract_mean is set")
     s = norm(f.node)
-    r.check("tmp = self.precision.dot(%s.T)" % sm in s and "d = %s.dot(tmp)" % sm in s and "d = np.diag(d)" in s, f, f.node, "sparse path: diag(x Q x^T)")
+    r.check(P("tmp = self.precision.dot(%s.T)" % sm) in s and P("d = %s.dot(tmp)" % sm) in s and "d = np.diag(d)" in s, f, f.node, "sparse path: diag(x Q x^T)")
     r.check("np.einsum('ij,ij->i', np.dot(%s, self.precision), %s)" % (sm, sm) in s, f, f.node, "dense path: row-wise x Q x")
     ifs = [n for n in walk_own(f.node) if isinstance(n, ast.If) and norm(n.test) == "self.sparse"]
     r.check(len(ifs) == 1, f, f.node, "the storage path is chosen by self.sparse")
